@@ -18,9 +18,10 @@ theorem dynTarget_eq_findSome (env : Spec.Env) (scope : List NodeId) (name : Str
   unfold declAt
   cases env.resource s <;> rfl
 
-/-- the `$dynamicRef` block of the evaluator, when the resolution tables are well formed: one in-place application,
+/-- the `$dynamicRef` block of the evaluator under 2020-12 (`hd20`: under draft-07 the keyword is unknown and the block
+    does nothing, `bDynamicRef_d7`), when the resolution tables are well formed: one in-place application,
     to the initial target if it carries no dynamic anchor, else to the Spec's `dynTarget` of the evaluator's stack -/
-theorem bDynamicRef_target (env : VEnv) (hwf : EnvWF env) (rec : Go.Rec) (stack : List NodeId)
+theorem bDynamicRef_target (env : VEnv) (hd20 : env.draft = .d2020) (hwf : EnvWF env) (rec : Go.Rec) (stack : List NodeId)
     (hstack : ∀ x, x ∈ stack → (env.info? x).isSome = true) (n : Node) (i : Info) (initial : NodeId)
     (hdr : n.dynamicRef ≠ "") (hres : i.resolvedDynamicRef = some initial) (inst : GoVal) (anns : Anns) :
     bDynamicRef env rec stack n (some i) inst anns =
@@ -29,7 +30,7 @@ theorem bDynamicRef_target (env : VEnv) (hwf : EnvWF env) (rec : Go.Rec) (stack 
          else (Spec.dynTarget (specEnvOf env) stack i.dynamicRefAnchor).getD initial) anns := by
   unfold bDynamicRef
   have h1 : (n.dynamicRef != "") = true := by simp [hdr]
-  simp only [h1, if_true, hres]
+  simp only [h1, hd20, beq_d2020_d2020, Bool.and_self, if_true, hres]
   by_cases ha : i.dynamicRefAnchor = ""
   · simp [ha]
   · have h2 : (i.dynamicRefAnchor == "") = false := by simp [ha]
